@@ -4,6 +4,7 @@ pub mod c03;
 pub mod c04;
 pub mod c05;
 pub mod c05d;
+pub mod c06;
 pub mod c07;
 pub mod c08;
 pub mod c10;
@@ -36,6 +37,7 @@ pub const PROPS: &[PropDef] = &[
     PropDef { id: "C03", level: "exploration", run: c03::run, shards: 12, isolate: false },
     PropDef { id: "C04", level: "exploration", run: c04::run, shards: 12, isolate: false },
     PropDef { id: "C05", level: "exploration", run: c05::run, shards: 12, isolate: true },
+    PropDef { id: "C06", level: "exploration", run: c06::run, shards: 12, isolate: true },
     PropDef { id: "C07", level: "exploration", run: c07::run, shards: 8, isolate: false },
     PropDef { id: "C08", level: "fault_enumeration", run: c08::run, shards: 8, isolate: false },
     PropDef { id: "C10", level: "exploration", run: c10::run, shards: 1, isolate: false },
